@@ -226,6 +226,8 @@ class ListModel:
     def copy(self):
         m = ListModel(list(self.items) if self.items is not None else None, self.length, self.make_elem, self.elem_facts, self.tag)
         m.seq = self.seq
+        if hasattr(self, "elem_ty"):
+            m.elem_ty = self.elem_ty
         return m
 
 
@@ -296,6 +298,7 @@ class Engine:
         self.obligations = []
         self.path_count = 0
         self.hooks = []            # discipline hook objects
+        self.covered = set()
         self.notes = []
         self._fresh = itertools.count()
         self.cur_func = None
@@ -367,6 +370,8 @@ class Engine:
             return VOpt(b.t, self.fresh_of_type(ty[1], base))
         if k == "obj":
             o = self.new_obj(ty[1])
+            if len(ty) > 2 and ty[2] == "lazy":
+                return o      # fields materialise on first read; class invariants are NOT assumed (fewer facts: sound)
             self.init_symbolic_object(o, base)
             return o
         if k == "opaque":
@@ -409,6 +414,7 @@ class Engine:
                 return x
             m = ListModel(None, z3.Length(sq), mk, [], base)
             m.seq = sq
+            m.elem_ty = elem_ty
             return self.new_list(m)
         if k == "oneof":
             # union of object classes: split by decision
@@ -500,10 +506,9 @@ class Engine:
         ob = Obligation(name, self.state.pc, g, clause, kind, self.cur_func, self.path_id, dict(self.vars))
         self.obligations.append(ob)
         # continue under the assumption that it holds (avoid cascades)
-        if not z3.is_true(g):
+        if not z3.is_true(g) and not z3.is_false(g):
             self.state.pc.append(g)
-        if z3.is_false(g) and not smt.feasible(self.state.pc, self.feas_timeout_ms):
-            raise PathEnd("after failed obligation")
+        # a literally-false goal is reported; execution continues without assuming it
 
     def emit(self, kind, **payload):
         self.state.events.append((kind, payload))
@@ -890,8 +895,17 @@ class Engine:
         is_and = isinstance(node.op, ast.And)
         vals = node.values
         if getattr(fr, "is_spec", False):
-            # contract expressions are pure: no forking, plain conjunction / disjunction
-            ts = [self.truth(self.eval(v, fr)) for v in vals]
+            # contract expressions are pure: no forking; later operands are evaluated under the guard
+            # established by the earlier ones (so `x is not None and x.f` is well defined)
+            ts = []
+            mark = len(self.state.pc)
+            try:
+                for v in vals:
+                    t = self.truth(self.eval(v, fr))
+                    ts.append(t)
+                    self.state.pc.append(t if is_and else z3.Not(t))
+            finally:
+                del self.state.pc[mark:]
             return VBool(z3.And(ts) if is_and else z3.Or(ts))
         cur = self.eval(vals[0], fr)
         for nxt in vals[1:]:
@@ -1502,6 +1516,8 @@ class Engine:
             self.exec(st, fr)
 
     def exec(self, node, fr):
+        if fr.qual == getattr(self, "cur_qual", None):
+            self.covered.add(node.lineno)
         m = getattr(self, "s_" + type(node).__name__, None)
         if m is None:
             raise OutOfSubset("statement %s" % type(node).__name__, node)
@@ -1708,9 +1724,14 @@ class Engine:
                 self.assign_target(item.optional_vars, cm, fr, node)
         try:
             self.exec_block(node.body, fr)
-        finally:
+        except PathEnd:
+            raise          # a cut path does not run __exit__
+        except BaseException:
             for cm, item in reversed(ctxs):
                 self.emit("with_exit", cm=cm, node=item.context_expr, frame=fr)
+            raise
+        for cm, item in reversed(ctxs):
+            self.emit("with_exit", cm=cm, node=item.context_expr, frame=fr)
 
     def s_Try(self, node, fr):
         def run_final():
